@@ -597,6 +597,149 @@ def sc_dict_keys(rng):
     return fails
 
 
+def sc_grouped(rng):
+    """MPS / MPO with grouped sites (grouped > 1 is stored as an HDF5 attribute), finite and infinite, n = 2, 3, 4;
+    group_split of the loaded state; non-default norm and transfermatrix_keep"""
+    from tenpy.models.xxz_chain import XXZChain
+    from tenpy.networks.mps import MPS
+    from tenpy.networks.site import SpinHalfSite
+    fails = []
+    with warnings.catch_warnings():
+        warnings.simplefilter('ignore')
+        s = SpinHalfSite(conserve=rng.choice(['Sz', 'parity', 'None']))
+        for bc in ('finite', 'infinite'):
+            for n in (2, 3, 4):
+                L = {2: 4, 3: 6, 4: 4}[n] if bc == 'infinite' else rng.choice([4, 5, 6])
+                pairs = [(0, 3), (1, 2)] + ([(4, 5)] if L == 6 else [])
+                psi = MPS.from_singlets(s, L, pairs, lonely=[4] if L == 5 else [], bc=bc, unit_cell_width=L)
+                psi.norm = 0.5
+                psi._transfermatrix_keep = 3
+                g = psi.copy()
+                g.group_sites(n)
+                root = {'g': g, 'psi': psi}
+                for fmt in (rng.choice(['blocks', 'compact']),):
+                    try:
+                        b = rt(root, {'LegCharge': fmt})
+                    except ValueError as e:
+                        if g.L == 1 and bc == 'finite' and 'zero-size array' in str(e):
+                            # a finite MPS with a single site has no bond: `np.max(self.chi)` in MPS.save_hdf5
+                            fails.append(('hdf5.single-site-finite-mps.save-raises', 'L=%d grouped by %d: %r' % (L, n, e)))
+                            b = None
+                            break
+                        raise
+                    fails += K.oracle(root, b, 'hdf5.grouped-mps', 'MPS')
+                    if b['g'].grouped != n:
+                        fails.append(('hdf5.grouped-mps.grouped-attribute', 'bc=%s n=%d: loaded grouped=%r' % (bc, n, b['g'].grouped)))
+                if b is None:
+                    continue
+                # splitting the loaded state must give what splitting the original gives
+                a2, b2 = g.copy(), b['g']
+                try:
+                    a2.group_split()
+                    b2.group_split()
+                    fails += K.oracle({'x': a2}, {'x': b2}, 'hdf5.grouped-mps.group_split', 'MPS')
+                except Exception as e:
+                    fails.append(('hdf5.grouped-mps.group_split-raises:' + type(e).__name__, 'bc=%s n=%d %r' % (bc, n, e)))
+                if n == 2:
+                    fails += K.other_roundtrips(root, 'MPS', {'hist': collections.Counter()})
+            M = XXZChain({'L': 4, 'bc_MPS': bc, 'conserve': 'Sz'})
+            H = M.H_MPO.copy()
+            H.group_sites(2)
+            b = rt({'H': H, 'H1': M.H_MPO})
+            fails += K.oracle({'H': H, 'H1': M.H_MPO}, b, 'hdf5.grouped-mpo', 'MPO')
+            if b['H'].grouped != 2 or b['H1'].grouped != 1:
+                fails.append(('hdf5.grouped-mpo.grouped-attribute', repr((b['H'].grouped, b['H1'].grouped))))
+    return fails
+
+
+# attributes written with `h5gr.attrs[...]` that are documented as metadata "not needed for loading" / recomputed
+DERIVED_H5_ATTRS = {'L', 'max_bond_dimension', 'rank', 'shape', 'dim', 'N_sites', 'num_charges', 'segment_first', 'segment_last',
+                    'N_unit_cells', 'simple_Lu', 'format', 'unused'}
+# ... and per class: recomputed by the loader from other saved data (a changed value is inconsistent, not lost)
+DERIVED_PER_CLASS = {'LegPipe': {'ind_len', 'block_number'},  # LegPipe.from_hdf5 re-initialises from `legs`
+                     'UniformMPS': {'valid_umps'}}  # test_sanity -> test_validity re-evaluates the flag
+H5_ATTR_ALIASES = {'block_inds_sorted': '_qdata_sorted', 'transfermatrix_keep': '_transfermatrix_keep'}
+
+
+def h5_attr_names(cls):
+    """names used as `h5gr.attrs['name'] = ...` in the save_hdf5 methods along the MRO (reflection over the source)"""
+    import inspect
+    import re
+    names = []
+    for c in cls.__mro__:
+        f = c.__dict__.get('save_hdf5')
+        if f is None:
+            continue
+        try:
+            src = inspect.getsource(f)
+        except (OSError, TypeError):
+            continue
+        src = '\n'.join(l for l in src.splitlines() if not l.lstrip().startswith('#'))
+        for m in re.finditer(r"""h5gr\.attrs\[['"](\w+)['"]\]\s*=""", src):
+            if m.group(1) not in names:
+                names.append(m.group(1))
+    return names
+
+
+def sc_attr_audit(rng):
+    """Every scalar that a class writes as an HDF5 *attribute* must be read back: for each exportable class (reflection)
+    and each `h5gr.attrs[name]` of its save_hdf5 that corresponds to a bool/int/float/str instance attribute, save a
+    shallow copy with that attribute changed and require the loaded object to carry the changed value.  (A changed value
+    that the class's own sanity check rejects on load is inconclusive and skipped.)"""
+    import copy as _copy
+    fails = []
+    stats = collections.Counter()
+    with warnings.catch_warnings():
+        warnings.simplefilter('ignore')
+        for cn in sorted(K.classes()):
+            cls = K.classes()[cn]
+            names = [n for n in h5_attr_names(cls) if n not in DERIVED_H5_ATTRS]
+            if not names:
+                continue
+            inst = K.zoo_instances(cn, 0)
+            if not inst:
+                continue
+            obj = inst[rng.randrange(len(inst))][1]
+            for n in names:
+                if any(n in DERIVED_PER_CLASS.get(c.__name__, ()) for c in cls.__mro__):
+                    continue
+                attr = next((a for a in (n, '_' + n, H5_ATTR_ALIASES.get(n, n)) if a in getattr(obj, '__dict__', {})), None)
+                if attr is None:
+                    continue
+                v = obj.__dict__[attr]
+                if isinstance(v, (bool, np.bool_)):
+                    new = not bool(v)
+                elif isinstance(v, (int, np.integer)):
+                    new = int(v) + 1
+                elif isinstance(v, (float, np.floating)):
+                    new = float(v) * 0.5 + 0.25
+                elif isinstance(v, str):
+                    new = v + '_x'
+                else:
+                    continue
+                o2 = _copy.copy(obj)
+                o2.__dict__[attr] = new
+                stats['tried'] += 1
+                try:
+                    b = rt({'o': o2})['o']
+                except Exception:
+                    stats['inconclusive'] += 1
+                    continue
+                got = getattr(b, attr, '<missing>')
+                try:
+                    same = bool(got == new)
+                except Exception:
+                    same = False
+                if not same:
+                    fails.append(('hdf5.attr-not-restored:%s.%s' % (cls.__name__, attr),
+                                  'saved %s.%s = %r (HDF5 attribute %r), loaded %r' % (cls.__name__, attr, new, n, got)))
+                else:
+                    stats['restored'] += 1
+    if stats['restored'] < 10:
+        fails.append(('harness.attr-audit-too-few', repr(dict(stats))))
+    return fails
+
+
 def sc_global_errors(rng):
     """functions / classes are saved by name: what cannot be found again under its name is an export error"""
     fails = []
@@ -817,7 +960,7 @@ def sc_nested_options(rng):
 SCENARIOS = collections.OrderedDict([
     ('wrappers_subpath', sc_wrappers_subpath), ('file_endings', sc_file_endings), ('masked_arrays', sc_masked_arrays),
     ('dtypes_and_arrays', sc_dtypes_and_arrays), ('ignored_exclude', sc_ignored_exclude),
-    ('unknown_class_and_global', sc_unknown_class_and_global), ('reduce_variants', sc_reduce_variants), ('reduce_matrix', sc_reduce_matrix), ('dict_keys', sc_dict_keys),
+    ('unknown_class_and_global', sc_unknown_class_and_global), ('reduce_variants', sc_reduce_variants), ('reduce_matrix', sc_reduce_matrix), ('dict_keys', sc_dict_keys), ('grouped', sc_grouped), ('attr_audit', sc_attr_audit),
     ('global_errors', sc_global_errors), ('format_errors', sc_format_errors), ('leg_format_errors', sc_leg_format_errors),
     ('legacy_files', sc_legacy_files), ('segments', sc_segments), ('nested_options', sc_nested_options),
 ])
